@@ -29,6 +29,8 @@ def handle : Handler := fun op args =>
       if hi = lo ∧ ¬ (x < lo) ∧ ¬ (x > hi) then "undef" else "ok const " ++ showRat (cdfUniform x lo hi)
   | "c07.gauss_pdf" => withArgs p3 args fun (x, mu, s) => if s ≤ 0 then "undef" else clsR (fun T => pdfGauss T x mu s)
   | "c07.gauss_cdf" => withArgs p3 args fun (x, mu, s) => if s ≤ 0 then "undef" else clsR (fun T => cdfGauss T x mu s)
+  | "c07.gauss2d" => withArgs (do let x ← pRat; let y ← pRat; let m1 ← pRat; let m2 ← pRat; let s1 ← pRat; let s2 ← pRat; pure (x, y, m1, m2, s1, s2)) args
+      fun (x, y, m1, m2, s1, s2) => if s1 ≤ 0 ∨ s2 ≤ 0 then "undef" else clsR (fun T => pdfGauss2D T x y m1 m2 s1 s2)
   | "c07.gauss_q" => withArgs p3 args fun (p, mu, s) =>
       if s ≤ 0 then "undef" else
       match invErf TA (2 * p - 1) with
